@@ -183,7 +183,7 @@ struct Breaker<'a> {
 }
 
 impl<'a> Host for Breaker<'a> {
-    fn boundary(&mut self, sess: &mut Sess, turn: u64, state: St) -> Result<bool, Crash> {
+    fn boundary(&mut self, sess: &mut Sess, turn: u64, state: St, _events: usize) -> Result<bool, Crash> {
         if !(self.schedule)(turn, state) {
             return Ok(false);
         }
